@@ -39,28 +39,19 @@ Proof. unfold rtc_form. destruct k; simpl; auto; discriminate. Qed.
 Lemma last_snoc_kind (l : list kind) x d : last (l ++ [x]) d = x.
 Proof. apply last_last. Qed.
 
-(* the Rtc.push_child automaton, on the kinds of the present children *)
+(* the Rtc.push_child guard, on the kinds of the present children: no Rp-delimited list is extended and
+   only an Rt is added *)
 Definition rtc_guard (ks : list kind) (kc : kind) : bool :=
-  let fk := hd_error ks in
-  let lk := match ks with [] => None | _ => Some (last ks KText) end in
-  if okind_is KRt fk then kind_in kc [KRt]
-  else if okind_is KRp fk && okind_is KRp lk then false
-  else kind_in kc [KRt; KRp].
+  negb (okind_is KRp (hd_error ks) || negb (kind_in kc [KRt])).
 
-Lemma rtc_push ks kc : rtc_form ks = true -> rtc_guard ks kc = true -> ~ (ks = [] /\ kc = KRp) ->
-  rtc_form (ks ++ [kc]) = true.
+Lemma rtc_push ks kc : rtc_form ks = true -> rtc_guard ks kc = true -> rtc_form (ks ++ [kc]) = true.
 Proof.
-  intros F G T. destruct ks as [|k t].
-  - unfold rtc_guard in G. simpl in G. destruct kc; try discriminate; [reflexivity|exfalso; apply T; auto].
-  - destruct (rtc_form_other _ _ F) as [-> | ->].
-    + apply rtc_form_hd_rt in F. unfold rtc_guard in G. simpl in G. destruct kc; try discriminate.
-      apply rtc_form_all_rt. change ((KRt :: t) ++ [KRt]) with (KRt :: (t ++ [KRt])).
-      simpl in *. rewrite all_rt_app, F. reflexivity.
-    + destruct (rtc_form_hd_rp _ F) as (m & -> & _). unfold rtc_guard in G.
-      cbn [hd_error okind_is] in G. rewrite kind_eqb_refl in G. unfold kind_eqb at 1 in G.
-      destruct (kind_eq_dec KRt KRp); [discriminate|].
-      change (KRp :: m ++ [KRp]) with ((KRp :: m) ++ [KRp]) in G. rewrite last_snoc_kind in G.
-      destruct ((KRp :: m) ++ [KRp]) eqn:E; [discriminate|]. cbn [okind_is] in G. rewrite kind_eqb_refl in G. discriminate.
+  intros F G. unfold rtc_guard in G. apply negb_true_iff in G. apply orb_false_iff in G. destruct G as [G1 G2].
+  apply negb_false_iff in G2. assert (kc = KRt) as -> by (destruct kc; try discriminate G2; reflexivity).
+  destruct ks as [|k t]; [reflexivity|].
+  destruct (rtc_form_other _ _ F) as [-> | ->].
+  - apply rtc_form_hd_rt in F. apply rtc_form_all_rt. rewrite all_rt_app, F. reflexivity.
+  - simpl in G1. rewrite kind_eqb_refl in G1. discriminate.
 Qed.
 
 Lemma all_rt_eq l : all_rt l = forallb (kind_eqb KRt) l.
